@@ -248,8 +248,9 @@ func runC14(r *Run) {
 			r.Check("FixLogLeaf:chain-type", a != nil && TypeName(a.Type().(*types.Pointer).Elem()) == "[]ct.ASN1Cert", r.Where(c), "stored chain decoded into []ct.ASN1Cert")
 		}
 		r.ExpectStores(fix, "FixLogLeaf:precert.cert", "&(new:ct.PrecertChainEntry#0.PreCertificate)", "new:ct.PrecertChainEntryHash#0.PreCertificate", 1)
-		r.ExpectStores(fix, "FixLogLeaf:precert.chain", "&(new:ct.PrecertChainEntry#0.CertificateChain)", "*new:[]ct.ASN1Cert#0", 1)
-		r.ExpectStores(fix, "FixLogLeaf:x509.chain", "&(new:ct.CertificateChain#0.Entries)", "*new:[]ct.ASN1Cert#1", 1)
+		// the chain field is the chain decoded from the bytes looked up under the layout's own hash (nil only for an empty hash)
+		c14ChainField(r, fix, "FixLogLeaf:precert.chain", "&(new:ct.PrecertChainEntry#0.CertificateChain)", "PrecertChainEntryHash")
+		c14ChainField(r, fix, "FixLogLeaf:x509.chain", "&(new:ct.CertificateChain#0.Entries)", "CertificateChainHash")
 	}
 	if fn := r.Fn("(*trillian/ctfe.indirectIssuanceChainService).BuildLogLeaf"); fn != nil {
 		if m := r.OneCall(fn, "indirect.BuildLogLeaf:marshal", "asn1.Marshal"); m != nil {
@@ -300,13 +301,22 @@ func runC14(r *Run) {
 		if len(gos) == 1 {
 			r.MustGuard(fn, "getByHash:cache-filled-only-after-read", "nil?iface(trillian/ctfe/storage.IssuanceChainStorage).FindByKey(*)#1", "non", gos, "cache fill")
 			g := gos[0].(*ssa.Go)
-			r.Check("getByHash:cache-fill.args", len(g.Call.Args) >= 3 && r.D.D(g.Call.Args[1]) == "p2" && glob("iface(trillian/ctfe/storage.IssuanceChainStorage).FindByKey(*)#0", r.D.D(g.Call.Args[2])), r.Where(g), "cache filled with (hash, chain read)")
+			k, v, why := c14CacheFill(r, g)
+			r.Check("getByHash:cache-fill.args", k != nil && r.D.D(k) == "p2" && glob("iface(trillian/ctfe/storage.IssuanceChainStorage).FindByKey(*)#0", r.D.D(v)), r.Where(g), "cache filled with (hash, chain read) "+why)
 		} else {
 			r.Fail("getByHash:cache-fill", r.FnPos(fn), fmt.Sprintf("%d detached cache fills", len(gos)))
 		}
 		for _, ret := range Returns(fn) {
 			if errKind(ret.Results[1]) == "nil" {
-				r.Check("getByHash:result", glob("iface(trillian/ctfe/storage.IssuanceChainStorage).FindByKey(*)#0", r.D.D(ret.Results[0])), r.Where(ret), "returns the chain read from storage")
+				// a success result is the chain read from storage — or the cache's entry, where the return can
+				// only execute on a hit (entry non-nil) that the cache reported without error
+				got := r.D.D(ret.Results[0])
+				ok := glob("iface(trillian/ctfe/storage.IssuanceChainStorage).FindByKey(*)#0", got)
+				if !ok && glob("iface(trillian/ctfe/cache.IssuanceChainCache).Get(*)#0", got) {
+					get := got[:len(got)-2]
+					ok = c14OnlyUnder(r, fn, ret, "nil?"+got, "non") && c14OnlyUnder(r, fn, ret, "nil?"+get+"#1", "nil")
+				}
+				r.Check("getByHash:result", ok, r.Where(ret), "returns the chain read from storage (or the cache's entry on an error-free hit): "+got)
 			}
 		}
 
@@ -477,7 +487,8 @@ func c14ChainStore(r *Run) {
 				r.Check("add:store-dominates-cache-fill", add[0].Block().Dominates(gos[0].Block()) && add[0].Block() != gos[0].Block(), r.Where(gos[0]), "the storage write dominates the cache fill")
 			}
 			g := gos[0].(*ssa.Go)
-			r.Check("add:cache-fill.args", len(g.Call.Args) >= 3 && r.D.D(g.Call.Args[1]) == "trillian/ctfe.issuanceChainHash(p2)" && r.D.D(g.Call.Args[2]) == "p2", r.Where(g), "cache filled with (hash(chain), chain)")
+			k, v, why := c14CacheFill(r, g)
+			r.Check("add:cache-fill.args", k != nil && r.D.D(k) == "trillian/ctfe.issuanceChainHash(p2)" && r.D.D(v) == "p2", r.Where(g), "cache filled with (hash(chain), chain) "+why)
 		}
 		// cache short-cut only when err == nil && entry != nil
 		get := "iface(trillian/ctfe/cache.IssuanceChainCache).Get(*)"
